@@ -472,12 +472,26 @@ func (s *segment) close() error {
 
 // Cleaned creates a cleaned segment for this segment.
 func (s *segment) Cleaned() (*segment, error) {
-	return newSegment(s.path, s.BaseOffset, s.maxBytes, false, cleanedSuffix)
+	return s.newReplacement(cleanedSuffix)
 }
 
 // Truncated creates a truncated segment for this segment.
 func (s *segment) Truncated() (*segment, error) {
-	return newSegment(s.path, s.BaseOffset, s.maxBytes, false, truncatedSuffix)
+	return s.newReplacement(truncatedSuffix)
+}
+
+// newReplacement creates an empty segment with the given suffix which is to
+// replace this segment. Files with that suffix left behind by a clean or
+// truncation that did not finish are removed first, otherwise their contents
+// would precede what is copied into the replacement.
+func (s *segment) newReplacement(suffix string) (*segment, error) {
+	r := &segment{BaseOffset: s.BaseOffset, path: s.path, suffix: suffix}
+	for _, file := range []string{r.logPath(), r.indexPath()} {
+		if err := os.Remove(file); err != nil && !os.IsNotExist(err) {
+			return nil, errors.Wrap(err, "remove file failed")
+		}
+	}
+	return newSegment(s.path, s.BaseOffset, s.maxBytes, false, suffix)
 }
 
 // Replace replaces the given segment with the callee.
